@@ -124,10 +124,13 @@ Section Receivers.
             | Err e => ClosedWith e
             | _ => ConnCrash
             end
-          | Err _ => ClosedClean        (* peer EOF inside a frame: still f.Close() *)
+          | Err _ => ClosedWith EEOF    (* peer EOF inside a frame: closed with the END_OF_FILE error
+                                           "end of stream inside a frame" (was a clean close before
+                                           "fix: adapter transport reports an END_OF_FILE that arrives
+                                           inside a frame as an unclean close") *)
           | _ => ConnCrash
           end
-        | Err _ => ClosedClean          (* peer EOF inside the size prefix *)
+        | Err _ => ClosedWith EEOF      (* peer EOF inside the size prefix: likewise *)
         | _ => ConnCrash
         end
       end
